@@ -130,6 +130,11 @@ func sentinelLocked(n int) error {
 // custom-typed error that wraps an inner error, depending on n%3 (property C04 names all three). The same
 // value is returned every time (scenarios run in parallel: creation is under the lock), so the harness can
 // ask errors.Is for that very value.
+// listErr: a slice-typed error (value receiver), hence not comparable
+type listErr []int
+
+func (l listErr) Error() string { return fmt.Sprintf("list error %v", []int(l)) }
+
 func userError(n int) error {
 	errMu.Lock()
 	defer errMu.Unlock()
@@ -146,6 +151,10 @@ func userError(n int) error {
 		// the inner cause is sometimes a context error of the USER's own (an attempt-local timeout): it must be
 		// treated like any other user error while the run's own context is alive
 		switch n % 4 {
+		case 3:
+			// an error of a NON-COMPARABLE dynamic type (a slice-based error with a value receiver, like
+			// go/scanner.ErrorList or validator-style []FieldError): comparing it with == panics
+			e = listErr{n, 7}
 		case 0:
 			e = &userErr{n: n, inner: context.DeadlineExceeded}
 		case 1:
@@ -167,6 +176,10 @@ func errStr(err error) string {
 	var ue *userErr
 	if errors.As(err, &ue) {
 		return "u" + strconv.Itoa(ue.n)
+	}
+	var le listErr
+	if errors.As(err, &le) && len(le) > 0 {
+		return "u" + strconv.Itoa(le[0])
 	}
 	errMu.Lock()
 	for n, e := range issued {
